@@ -86,6 +86,13 @@ Remove(s, o, cs, D) ==
    objs |-> s.objs \ {o},
    grid |-> [c \in DOMAIN s.grid |-> IF c \in cells THEN RemoveFirst(s.grid[c], o) ELSE s.grid[c]]]
 
+\* Plane.remove(o) for an object that is not in the index: the loop over the cells runs first (as coded it finds
+\* nothing to delete, unless an earlier duplicate add left a stale entry), then `self._objs.remove(obj)` raises KeyError
+\* before anything else is touched.  The contract: the call is rejected and the index is what it was.
+RemoveRejected(s, o, cs, D) ==
+  LET cells == Range(cs) IN
+  [s EXCEPT !.grid = [c \in DOMAIN s.grid |-> IF c \in cells THEN RemoveFirst(s.grid[c], o) ELSE s.grid[c]]]
+
 Ov(a, b) == ~(a[3] <= b[1] \/ b[3] <= a[1] \/ a[4] <= b[2] \/ b[4] <= a[2])    \* the filter in find()
 
 RECURSIVE Flat(_, _)         \* candidates in the order find() meets them
@@ -106,7 +113,8 @@ FindSet(s, q, cs, box) == {o \in CandSet(s.grid, cs) : Ov(box[o], q)}
 IterRes(s) == SelectSeq(s.seq, LAMBDA o : o \in s.objs)
 
 \* ------------------------------------------------------------------ reference (brute force over the history)
-\* a history is a sequence of <<"add", o>> / <<"remove", o>>
+\* a history is a sequence of <<"add", o>> / <<"remove", o>> / <<"xremove", o>> (a remove() of an object that is not in
+\* the index: rejected with KeyError, changes nothing)
 RECURSIVE RefLive(_)
 RefLive(h) == IF h = <<>> THEN {}
               ELSE LET r == RefLive(SubSeq(h, 1, Len(h) - 1))  op == h[Len(h)]
